@@ -9,12 +9,13 @@
     parser.parse <flags [df,yf,fuzzy,fwt,ignoretz]> <default [7 ints]> <year> <century>
                  <tznames cps;cps> <tzinfos> <info> <cps> <classes>
     parser.assign <n0> <n1> <tzname>            (names: cps | `N` for None)
-    parser.localfinal <n0> <n1> <tzname>
+    parser.localfinal <n0> <n1> <off0> <off1> <tzname> <tzoffset|-> [<UTCZONE words>]
 -/
 import DateutilVerif.Base.Wire
 import DateutilVerif.Model.Parser
 import DateutilVerif.Spec.ParserTemplates
 import DateutilVerif.Spec.ParserTemplatesGen
+import DateutilVerif.Spec.ParserSentence
 
 namespace Ops.Parser
 open Wire PM
@@ -124,11 +125,21 @@ def showDescr : TzDescr → String
   | .naiveWarn n => "warn " ++ showCps n
   | .utc => "utc"
   | .fixed n off => s!"fixed {showOptName n} {off}"
-  | .localZone n => "local " ++ showCps n
+  | .localZone n off => "local " ++ showCps n ++ " " ++ showOptInt off
   | .viaTzinfos d n => s!"tzi {showTzData d} {showOptName n}"
 
 def showResult (r : Result) : String :=
   s!"{r.dt.wire} | {showDescr r.tz} | " ++ (match r.tokens with | none => "-" | some l => showToks l)
+
+/-- `dflt` = the tzinfo of `default=` is kept (None for a naive default); `naive` / `warn` = tzinfo None whatever the default -/
+def showFinal : FinalTz → String
+  | .none => "naive"
+  | .noneWarn n => "warn " ++ showCps n
+  | .ofDefault => "dflt"
+  | .zone z => showDescr z
+
+def showResultA (r : ResultA) : String :=
+  s!"{r.dt.wire} | {showFinal r.tz} | " ++ (match r.tokens with | none => "-" | some l => showToks l)
 
 /-- `n` | `z0` `z1` | `u` | `h<sp><neg>.<h>` | `m<sp><neg>.<h>.<m>` | `c<sp><neg>.<h>.<m>` -/
 def parseOff? (s : String) : Option PT.Off :=
@@ -171,7 +182,7 @@ def handle (op : String) (args : List String) : Option String :=
           let cs' := if cps == "-" then [] else cs
           let clss := if classes == "-" then "" else classes
           let tbl := mkTable cs' clss
-          Py.showR showResult (parse (clsOfTable tbl) inf o tzn tzi d cs')
+          Py.showR showResultA (parseA (clsOfTable tbl) inf o tzn tzi d cs')
         | none => "bad-args"
       | _, _, _, _, _, _, _ => "bad-args")
   | "parser.assign", [n0, n1, name] =>
@@ -189,26 +200,32 @@ def handle (op : String) (args : List String) : Option String :=
          | .error .ValueError => "err ParserError"     -- inside parse()'s `try: _build_tzaware … except ValueError` (950345d)
          | .error e => "err " ++ e.name)
       | _, _, _ => "bad-args")
-  | "parser.localfinal", [n0, n1, name, utcz] =>
+  | "parser.localfinal", [n0, n1, o0, o1, name, tzoff, utcz] =>
     -- with the parserinfo's own UTCZONE list (`;`-separated code-point words)
-    some (match optName? n0, optName? n1, parseCps? name, (utcz.splitOn ";").mapM parseCps? with
-      | some a, some b, some n, some uz =>
-        (match localFinal { Info.default false false 2000 2000 with UTCZONE := uz } a b n with
+    some (match optName? n0, optName? n1, o0.toInt?, o1.toInt?, parseCps? name, parseOptInt? tzoff, (utcz.splitOn ";").mapM parseCps? with
+      | some a, some b, some x0, some x1, some n, some t, some uz =>
+        (match localFinal { Info.default false false 2000 2000 with UTCZONE := uz } a b x0 x1 n t with
          | .utc => "ok utc"
          | .localFold f => s!"ok local {f}")
-      | _, _, _, _ => "bad-args")
-  | "parser.localfinal", [n0, n1, name] =>
-    some (match optName? n0, optName? n1, parseCps? name with
-      | some a, some b, some n =>
-        (match localFinal (Info.default false false 2000 2000) a b n with
+      | _, _, _, _, _, _, _ => "bad-args")
+  | "parser.localfinal", [n0, n1, o0, o1, name, tzoff] =>
+    some (match optName? n0, optName? n1, o0.toInt?, o1.toInt?, parseCps? name, parseOptInt? tzoff with
+      | some a, some b, some x0, some x1, some n, some t =>
+        (match localFinal (Info.default false false 2000 2000) a b x0 x1 n t with
          | .utc => "ok utc"
          | .localFold f => s!"ok local {f}")
-      | _, _, _ => "bad-args")
+      | _, _, _, _, _, _ => "bad-args")
   | "parser.tzcascade", [tzn, tzi, name, off] =>
     -- `_build_tzaware` alone, on the (tzname, tzoffset) pair a text means
     some (match (tzn.splitOn ";").mapM parseCps?, parseTzInfos? tzi, optName? name, parseOptInt? off with
       | some tzn, some tzi, some n, some o =>
         Py.showR showDescr (buildTzaware tzn tzi { tzname := n, tzoffset := o })
+      | _, _, _, _ => "bad-args")
+  | "parser.finaltz", [ig, tzn, tzi, name, off] =>
+    -- the last lines of `parse` (`finalTz`): ignoretz, then `_build_tzaware`, saying whether the tzinfo of `default=` is kept
+    some (match (tzn.splitOn ";").mapM parseCps?, parseTzInfos? tzi, optName? name, parseOptInt? off with
+      | some tzn, some tzi, some n, some o =>
+        Py.showR showFinal (finalTz { ignoretz := ig == "1" } tzn tzi { tzname := n, tzoffset := o })
       | _, _, _, _ => "bad-args")
   | "parser.render", [sep, dt] =>
     some (match sep.toNat?, (parseIntList? dt).bind DT.ofList? with
@@ -247,6 +264,22 @@ def handle (op : String) (args : List String) : Option String :=
           | some cs => "ok " ++ showCps cs
           | none => "err unknown-template")
       | _, _ => "bad-args")
+  | "parser.sentences", [] =>
+    -- ids of the templates that have a C15 sentence theorem (C15.sentence_templates_have_theorems)
+    some ("ok " ++ ",".intercalate PT.sentenceTemplates)
+  | "parser.filler", [ws] =>
+    -- the DECIDABLE class of filler words of the sentence theorems, word by word (`;`-separated code-point words)
+    some (match (ws.splitOn ";").mapM parseCps? with
+      | some l => "ok " ++ String.ofList (l.map (fun w => if PM.fillerWord w then '1' else '0'))
+      | none => "bad-args")
+  | "parser.sentence", [id, dt, lead, trail] =>
+    -- the Lean text of a sentence: filler words (each followed by a space), the rendering, filler words (each after a space)
+    some (match (parseIntList? dt).bind DT.ofList?, (if lead == "-" then some [] else (lead.splitOn ";").mapM parseCps?),
+                (if trail == "-" then some [] else (trail.splitOn ";").mapM parseCps?) with
+      | some t, some l, some r => (match PT.sentenceCore id t (PM.fillerChars r) with
+          | some cs => "ok " ++ showCps (PM.leadChars l ++ cs)
+          | none => "err unknown-template")
+      | _, _, _ => "bad-args")
   | "parser.asciicls", [] =>
     some ("ok " ++ String.ofList ((List.range 128).map (fun i => match asciiCls (Char.ofNat i) with
       | .alpha => 'a' | .decDigit v => Char.ofNat (48 + v) | .otherDigit => 'n' | .space => 's' | .other => 'x')))
